@@ -93,7 +93,7 @@ def _fault_plan(r, enabled, bitmap=False):
         fs = []
         if r.random() < (0.4 if bitmap else 0.05):
             fs.append({"pick": r.randint(0, 1 << 30), "kind": "inner_fail", "rules": ["pngquant"], "code": r.choice([1, 2, 3, 15, 35, 139]),
-                       "mode": r.choice(["no_output", "no_output", "partial"])})
+                       "mode": r.choice(["no_output", "no_output", "partial", "partial"]), "signal": r.choice([None, None, 9, 11, 15])})
         for _ in range(r.choice([1, 1, 2])):
             fs.append(
                 {
@@ -244,6 +244,8 @@ def gen_history(seed, idx, tier, only_step_faults=False):
             return k
         if k == "option":
             name = r.choice(OPTS_FOR_HISTORY)
+            if p.fmt in gen.BITMAP and r.random() < 0.5:
+                name = r.choice(["bitmap_resolution", "use_pngquant", "use_zopflipng", "pngquant_flags", "pngquant_flags"])
             v = r.choice(gen.OPTION_VALUES[name])
             if name == "descender" and False:
                 return None
